@@ -138,20 +138,7 @@ impl IriRef {
 	/// assert_eq!(c.relative_to(b), "json-ld");
 	/// ```
 	pub fn relative_to(&self, other: &(impl ?Sized + AsRef<IriRef>)) -> IriRefBuf {
-		#[cfg(iref_verif)]
-		let span = crate::verif_trace::enter::<Self>(
-			"relative_to",
-			false,
-			self.as_bytes(),
-			Some(other.as_ref().as_bytes()),
-		);
-
-		let result = RiRefImpl::relative_to(self, other.as_ref());
-
-		#[cfg(iref_verif)]
-		span.exit(result.as_bytes());
-
-		result
+		RiRefImpl::relative_to(self, other.as_ref())
 	}
 
 	/// Get the suffix of this IRI reference, if any, with regard to the given prefix IRI reference..
